@@ -83,6 +83,12 @@ def dynamic(r, n, replay=None):
             whits.setdefault(m.group(1), []).append((i, c, o))
         else:
             hits.append((i, c, o))
+    ran = set()
+    for c in res["cases"]:
+        m = re.match(r"# cli \d+ witness (\S+)", c)
+        if m:
+            ran.add(m.group(1))
+    res["witnesses_run"] = ran
     cnt = res["meta"].get("counters", {})
     r.cov["cli_fuzz_counters"] = {k: v for k, v in cnt.items() if not k.startswith("diag:")}
     r.cov["cli_fuzz_diagnostic_kinds"] = len([k for k in cnt if k.startswith("diag:")])
@@ -90,12 +96,26 @@ def dynamic(r, n, replay=None):
     return res, hits, whits
 
 
-def report_dynamic(r, hits, whits, ncases):
+def finding_text(k):
+    return k["text"].split(" ", 3)[-1] if k["text"].count(" ") >= 3 else k["text"]
+
+
+def report_dynamic(r, hits, whits, ncases, ran=()):
     kf = {k["id"]: k for k in common.known_findings()}
+    # listed findings of this property: printed when the witness still fails; when the (expensive) witness was not
+    # run in this tier the line is printed all the same, saying so; a witness that ran and passed is a stale finding
+    for k in kf.values():
+        if k["kind"] != "finding" or k["property"] != r.prop or k["id"] in whits:
+            continue
+        if k["id"] in ran:
+            r.notes.append("stale finding (witness no longer fails): %s" % k["id"])
+            r.cov.setdefault("stale_findings", []).append(k["id"])
+        else:
+            r.known(k["id"], finding_text(k) + " (witness re-run only in the thorough tier)")
     for wid, rows in sorted(whits.items()):
         k = kf.get(wid)
         if k and k["kind"] == "finding":
-            r.known(wid, k["text"].split(" ", 3)[-1] if k["text"].count(" ") >= 3 else k["text"])
+            r.known(wid, finding_text(k))
             continue
         i, c, o = rows[0]
         what, case = split_case(o)
@@ -161,9 +181,11 @@ def run(r):
     r.obligations.append(("correspondence dec.fronttext: Lean unescape/hexToRune/fixLiteral/qualif/checkEscapes = the real functions of internal/parser on every case "
                           "(well-escaped: same value; ill-escaped: both panic)", not mm, "%d mismatches of %d" % (len(mm), len(ft["cases"]))))
     # dynamic support
-    n = 150 if r.tier == "quick" else 4000
+    # quick: every fixed adversarial file + every Go package variant once (≈ 190 runs, two thirds of which stop in the
+    # front end within milliseconds) + 40 random mutations; thorough: + 4000 random cases and the two budgeted witnesses K6/K7
+    n = 40 if r.tier == "quick" else 4000
     res, hits, whits = dynamic(r, n)
-    found = report_dynamic(r, hits, whits, len(res["cases"]))
+    found = report_dynamic(r, hits, whits, len(res["cases"]), res["witnesses_run"])
     if mm and not found:
         i, c, im, mo = mm[0]
         r.violation("fronttext-corr", {"kind": "correspondence-broken", "family": "fronttext", "first_disagreement": {"case": c, "implementation": im, "model": mo},
@@ -179,6 +201,7 @@ def run(r):
         "go/packages (go list, go/types), the Jet template engine, go/format and the OS are not modelled: their failures are outside the theorems and only sampled by cli_fuzz",
         "nil dereferences and stack/heap exhaustion have no syntactic site and are not in the inventory; they are only sampled by cli_fuzz (D19 was of this kind)",
         "the undocumented --cpu-prof flag panics when its file cannot be created; command-line flags are not an input of C12",
+        "resource exhaustion on adversarial input is recorded as known findings K6 (stack overflow at ~3M nesting levels) and K7 (exponential macro expansion); their witnesses cost minutes and run in the thorough tier only",
         "sites with status internal-invariant are NOT proved: the invariant is stated, and the families named there exercise it",
     ]
     return r.finish(LEVEL,
@@ -200,5 +223,5 @@ def replay(r, path):
     p = r.tmp + "/replay.txt"
     open(p, "w").write(line + "\n")
     res, hits, whits = dynamic(r, 0, replay=p)
-    report_dynamic(r, hits, whits, len(res["cases"]))
+    report_dynamic(r, hits, whits, len(res["cases"]), res["witnesses_run"] | {k["id"] for k in common.known_findings()})
     return r.finish(LEVEL, "replay of one cli_fuzz case", common.TRUSTED_COMMON)
